@@ -288,7 +288,7 @@ impl ops::Neg for Value {
 
     fn neg(self) -> Self::Output {
         let a = f64::try_from(&self).unwrap();
-        Value::Number(0f64 - a)
+        Value::Number(-a)
     }
 }
 
